@@ -8,6 +8,9 @@ THEOREMS = [
     "Mtv.Session.salt_roundtrip",
     "Mtv.Session.read_write_session",
     "Mtv.Session.torn_is_error",
+    "Mtv.Session.cut_store_is_prefix_of_new",
+    "Mtv.Session.cut_store_error_or_new",
+    "Mtv.Session.overwrite_in_place_third_session",
     "Mtv.Session.missing_is_notFound",
     "Mtv.Session.last_store_wins",
     "Mtv.Session.stale_cache_before_repair",
@@ -33,7 +36,11 @@ RULE = ("operations on real files in a per-run scratch directory through session
         "round trips of ~340 host names made of JSON-significant text (the literal text of every escape sequence "
         "the JSON writer emits, alone / embedded / behind further backslashes, escaped forms of other host names, "
         "quotes, long names), "
-        "histories on the real clock, every strict prefix of written files, files of "
+        "histories on the real clock, every strict prefix of written files, a Store of a newer session over an OLDER "
+        "one cut by the operating system itself (RLIMIT_FSIZE, SIGXFSZ ignored) at every byte 0..n of the new file "
+        "(c12.cut: older/newer differing in the salt only / in key, hash or host name of the same length / shorter / "
+        "longer / unrelated, small and real 256-byte-key sessions; the storing loader and a fresh one must report an "
+        "error or return one of the two stored sessions), files of "
         "other shapes, restart on a present / missing / torn store; the started client as the server sees it "
         "(c12.wire: session stored with a 256-byte key and a hash field that is the key's id / 8 other bytes / of "
         "another length / empty, store named by AuthKeyFile, a file loader or an in-memory storage; NewMTProto + "
